@@ -48,6 +48,7 @@ def clean_repo():
 def evaluate(d, extra_props=()):
     name = os.path.basename(d.rstrip('/'))
     prop = name.split('_')[0]
+    name = os.environ.get('SEED_PREFIX', '') + name      # e.g. r2_ for a second round
     patch = os.path.join(d, 'patch.diff')
     dm = os.path.join(d, 'demo.py')
     meta = {'id': name, 'property': prop, 'source_dir': d,
